@@ -15,6 +15,24 @@ func verifAssert(label string, cond bool) {
 
 func verifCanary(label string, cond bool) {}
 
+// The application's logger (interface-level contracts; assumed: logging does not touch server state).
+//@ func Logger.Debug
+//@   assumed
+//@   params l msg args
+//@   assigns nothing
+//@ func Logger.Error
+//@   assumed
+//@   params l msg args
+//@   assigns nothing
+//@ func Logger.Info
+//@   assumed
+//@   params l msg args
+//@   assigns nothing
+//@ func Logger.Warn
+//@   assumed
+//@   params l msg args
+//@   assigns nothing
+
 // ---------------------------------------------------------------------------
 // C31: access levels gate value reads and writes
 // ---------------------------------------------------------------------------
@@ -45,17 +63,15 @@ func verifCanary(label string, cond bool) {}
 //@   assigns nothing
 //@   ensures result != nil && fresh(result)
 
-// key of a node in a namespace's table
-//@ ufunc nodeKey(*ua.NodeID) string
+// key of a node in a namespace's table: the textual form of its id (see ua.nodeStr)
+//@ pred nodeKeyIs(k string, id *ua.NodeID) := k == ua.nodeStr(id)
 
 //@ func (*NodeNameSpace).Node
 //@   props C31 C33
 //@   requires as != nil
 //@   assigns held(&as.mu), released(&as.mu)
-//@   after "id.String()" assigns nothing
-//@   after "id.String()" ensures result == nodeKey(id)
 //@   ensures [C31:lookup] id == nil ==> result == nil
-//@   ensures [C31:lookup-key] id != nil ==> result == as.m[nodeKey(id)] || (result == nil && !in(nodeKey(id), as.m))
+//@   ensures [C31:lookup-key] id != nil ==> result == as.m[ua.nodeStr(id)]
 
 // (the value callback n.val() of a node is application code: it may do anything, hence assigns *)
 //@ func (*NodeNameSpace).Attribute
@@ -65,7 +81,7 @@ func verifCanary(label string, cond bool) {}
 //@   after "ua.MustVariant(int32(x))" assigns nothing
 //@   after "ua.MustVariant(int32(x))" ensures result != nil
 //@   ensures [C31:result] result != nil
-//@   ensures [C31:read-denied] id != nil && old(as.m[nodeKey(id)] != nil && !accessOK(as.m[nodeKey(id)].attr, ua.AccessLevelTypeCurrentRead)) ==>
+//@   ensures [C31:read-denied] id != nil && old(as.m[ua.nodeStr(id)] != nil && !accessOK(as.m[ua.nodeStr(id)].attr, ua.AccessLevelTypeCurrentRead)) ==>
 //@           result.Status == ua.StatusBadUserAccessDenied && result.Value == nil
 
 // Namespace invariant used as a precondition: nodes in the table have an attribute map (NewNode's
@@ -73,9 +89,54 @@ func verifCanary(label string, cond bool) {}
 //@ func (*NodeNameSpace).SetAttribute
 //@   props C31 C29
 //@   requires as != nil && as.srv != nil
-//@   let n = as.m[nodeKey(id)]
+//@   let n = as.m[ua.nodeStr(id)]
 //@   requires [node-has-attrs] n != nil ==> n.attr != nil
 //@   assigns *
 //@   ensures [C31:write-denied] id != nil && n != nil && old(!accessOK(n.attr, ua.AccessLevelTypeCurrentWrite)) ==>
 //@           result == ua.StatusBadUserAccessDenied && n.val == old(n.val) && n.attr == old(n.attr) &&
 //@           (forall k ua.AttributeID :: in(k, n.attr) == old(in(k, n.attr)) && n.attr[k] == old(n.attr[k]))
+
+// ---------------------------------------------------------------------------
+// C33: Browse returns exactly the matching references
+// ---------------------------------------------------------------------------
+
+//@ pred sameID(a *ua.NodeID, b *ua.NodeID) := ua.nodeStr(a) == ua.nodeStr(b)
+//@ pred nullID(a *ua.NodeID) := ua.nodeStr(a) == "i=0"
+
+// isSubtypeOf(srv, parent, child): child is reachable from parent over forward HasSubtype references
+// in srv's address space (strict descendant). Its meaning is the result of getSubRefs (assumed).
+//@ ufunc isSubtypeOf(*Server, *ua.NodeID, *ua.NodeID) bool
+
+// from the property statement
+//@ pred dirOK(bd ua.BrowseDirection, isForward bool) := bd == ua.BrowseDirectionBoth ||
+//@     (bd == ua.BrowseDirectionForward && isForward) || (bd == ua.BrowseDirectionInverse && !isForward)
+//@ pred typeOK(srv *Server, want *ua.NodeID, have *ua.NodeID, subtypes bool) :=
+//@     nullID(want) || sameID(want, have) || (subtypes && isSubtypeOf(srv, want, have))
+//@ pred classOK(mask uint32, class ua.NodeClass) := mask == 0 || mask & uint32(class) != 0
+
+//@ func suitableDirection
+//@   props C33
+//@   assigns nothing
+//@   ensures [C33:dir] result == dirOK(bd, isForward)
+
+//@ func getSubRefs
+//@   props C33
+//@   assumed
+//@   assigns nothing
+
+//@ func suitableRefType
+//@   props C33 C29
+//@   requires srv != nil && ref1 != nil && ref2 != nil
+//@   assigns nothing
+//@   after "slices.ContainsFunc(oktypes, hasRef2Fn)" assigns nothing
+//@   after "slices.ContainsFunc(oktypes, hasRef2Fn)" ensures result == isSubtypeOf(srv, ref1, ref2)
+//@   ensures [C33:type] result == typeOK(srv, ref1, ref2, subtypes)
+//@   canary ensures [C33:canary-subtypes-always] result == (nullID(ref1) || sameID(ref1, ref2) || isSubtypeOf(srv, ref1, ref2))
+
+//@ func suitableRef
+//@   props C33 C29
+//@   requires srv != nil && srv.cfg != nil && desc != nil && ref != nil && desc.ReferenceTypeID != nil && ref.ReferenceTypeID != nil
+//@   assigns nothing
+//@   ensures [C33:filter] result == (dirOK(desc.BrowseDirection, ref.IsForward) &&
+//@           typeOK(srv, desc.ReferenceTypeID, ref.ReferenceTypeID, desc.IncludeSubtypes) &&
+//@           classOK(desc.NodeClassMask, ref.NodeClass))
